@@ -252,6 +252,35 @@ func (g *generator) targetFor(ref int, faulty bool) (res int) {
 	return g.target(faulty)
 }
 
+// retainedDead lists references of dead entities that some alive child still has as its target.
+func (g *generator) retainedDead() (res []int) {
+	defer func() {
+		if recover() != nil {
+			res = []int{}
+		}
+	}()
+	res = []int{}
+	for _, c := range g.aliveRefs() {
+		rel := g.relOf(g.maskOf(c))
+		if rel < 0 {
+			continue
+		}
+		t := g.x.w.Relations().Get(g.x.issued[c], g.x.idOf(rel))
+		if t.IsZero() || g.x.w.Alive(t) {
+			continue
+		}
+		for i := len(g.x.issued) - 1; i >= g.x.epoch; i-- {
+			if g.x.issued[i] == t {
+				if !contains(res, i) {
+					res = append(res, i)
+				}
+				break
+			}
+		}
+	}
+	return res
+}
+
 // target draws a relation target reference: mostly alive or zero; dead when faulty.
 func (g *generator) target(faulty bool) int {
 	alive := g.aliveRefs()
@@ -317,6 +346,12 @@ func (g *generator) filter(depth int, allowCached bool) *FSpec {
 		if g.pct(15) {
 			if dead := g.deadRefs(); len(dead) > 0 {
 				t = g.pick(dead)
+			}
+		}
+		if g.pct(30) {
+			// a dead target that children still point to: its children are exactly what the filter must select
+			if rd := g.retainedDead(); len(rd) > 0 {
+				t = g.pick(rd)
 			}
 		}
 		return &FSpec{K: "rel", Subs: []*FSpec{inner}, Tgt: t}
@@ -444,7 +479,11 @@ func (g *generator) nextInner() Op {
 	dead := g.deadRefs()
 	faulty := g.pct(g.p.FaultPct)
 	if !g.p.Generic && g.p.Twin == "" && !g.locked() && g.pct(g.p.RetargetPct) {
-		if plan := g.retargetPlan(alive); len(plan) > 0 {
+		plan := g.retargetPlan(alive)
+		if g.pct(40) {
+			plan = g.orphanPlan()
+		}
+		if len(plan) > 0 {
 			g.plan = plan[1:]
 			return plan[0]
 		}
@@ -877,7 +916,11 @@ func (g *generator) nextInner() Op {
 			if g.pct(50) {
 				f = &FSpec{K: "all", Ids: []int{rel}, Tgt: -1}
 			} else {
-				f = &FSpec{K: "rel", Subs: []*FSpec{{K: "all", Ids: []int{rel}, Tgt: -1}}, Tgt: g.target(false)}
+				ft := g.target(false)
+				if rd := g.retainedDead(); len(rd) > 0 && g.pct(40) {
+					ft = g.pick(rd)
+				}
+				f = &FSpec{K: "rel", Subs: []*FSpec{{K: "all", Ids: []int{rel}, Tgt: -1}}, Tgt: ft}
 			}
 			if g.pct(25) {
 				live := []int{}
@@ -1497,6 +1540,20 @@ func (g *generator) playCard(alive []int) (Op, bool) {
 		}
 		return Op{Op: "NewEntity", Api: "World.NewEntity", Ids: []int{}}, true
 	case "Remove", "Get":
+		if dead := g.deadRefs(); c.api == "Get" && len(dead) > 0 && g.pct(50) {
+			// a stale handle (its id may have been recycled since): every position of Get must reject it
+			deckPos++
+			// prefer a stale handle whose id is in use again
+			ref := g.pick(dead)
+			for _, d := range dead {
+				for _, a := range alive {
+					if g.x.issued[d].ID() == g.x.issued[a].ID() && g.pct(50) {
+						ref = d
+					}
+				}
+			}
+			return Op{Op: "Read", Api: "generic.Map.Get", E: ref, Ar: ar}, true
+		}
 		for _, ref := range alive {
 			m := g.maskOf(ref)
 			if run(m) >= ar {
@@ -1623,4 +1680,35 @@ func (g *generator) retargetPlan(alive []int) (plan []Op) {
 		last = Op{Op: "BatchSetRelation", Api: "Batch.SetRelation", F: &FSpec{K: "all", Ids: []int{k.rel}, Tgt: -1}, Rel: k.rel, Tgt: p2}
 	}
 	return append(plan, last)
+}
+
+// orphanPlan: two children of one parent in different relation nodes; the parent dies (both keep the dead target);
+// one child moves into the other's node by a call that names no target; then the dead parent's children are
+// looked up by relation filter (plain and - if any filter is registered - through the sweep) and re-parented in batch.
+func (g *generator) orphanPlan() []Op {
+	if len(g.rels) == 0 || len(g.nons) == 0 {
+		return nil
+	}
+	rel := g.pick(g.rels)
+	x := g.pick(g.nons)
+	p := len(g.x.issued)
+	c1, c2 := p+1, p+2
+	child := func(ids []int) Op {
+		return Op{Op: "BuilderNew", Api: "Builder.New", Ids: ids, HasRel: true, Rel: rel, HasTgt: true, Tgt: p}
+	}
+	rf := func() *FSpec {
+		return &FSpec{K: "rel", Subs: []*FSpec{{K: "all", Ids: []int{rel}, Tgt: -1}}, Tgt: p}
+	}
+	plan := []Op{{Op: "NewEntity", Api: "World.NewEntity", Ids: []int{}}, child([]int{rel}), child([]int{rel, x}),
+		{Op: "RemoveEntity", E: p}}
+	if g.pct(50) {
+		plan = append(plan, Op{Op: "Exchange", Api: "World.Add", E: c1, Add: []int{x}, Rem: []int{}, Tgt: -1})
+	} else {
+		plan = append(plan, Op{Op: "Exchange", Api: "World.Remove", E: c2, Add: []int{}, Rem: []int{x}, Tgt: -1})
+	}
+	plan = append(plan, Op{Op: "Panel", F: rf(), Walk: g.walk()})
+	if g.pct(50) {
+		plan = append(plan, Op{Op: "BatchSetRelation", Api: "Batch.SetRelation", F: rf(), Rel: rel, Tgt: g.target(false)})
+	}
+	return plan
 }
